@@ -8,11 +8,11 @@ CONSTANTS
  MaxFaults = 5
  MaxSeeks = 1
  Conc = 8
- FixLeak = FALSE
+ FixLeak = TRUE
  PrioAsc = TRUE
  Rs = {1, 2, 3}
  Prios = {0, 1}
- Meths = {"GET", "HEAD", "PUT"}
+ Meths = {"GET", "HEAD", "PUT", "DELETE"}
  Waive <- WaivePrio
  Confs <- AllConfs
 INIT GInit
